@@ -128,6 +128,18 @@ def constant(interp, full: str) -> Any:
     return MISSING
 
 
+def hash_of(interp, v: ExtObj) -> Any:
+    """Equal terms hash equally (rdflib hashes the type name with the text; literals with the lower-cased tag)."""
+    from .freeze import freeze
+
+    if v.kind == "rdflib.Literal":
+        lang = v.attrs["language"]
+        return Unknown(("rdflib-hash", "Literal", repr(freeze(v.attrs["lex"])), lang.lower() if isinstance(lang, str) else repr(freeze(lang)), repr(freeze(v.attrs["datatype"]))), "hash(Literal)")
+    if v.kind in ("rdflib.URIRef", "rdflib.BNode"):
+        return Unknown(("rdflib-hash", v.kind, repr(freeze(v.attrs["value"]))), f"hash({v.kind})")
+    return MISSING
+
+
 def str_of(interp, v: ExtObj) -> Any:
     if v.kind in ("rdflib.URIRef", "rdflib.BNode"):
         return v.attrs["value"]
@@ -142,11 +154,26 @@ def len_of(interp, v: ExtObj) -> Any:
     if v.kind == "rdflib.Dataset":
         return sum(len(g.attrs["data"].items) for g in _contexts(interp, v))
     if v.kind in TERM_KINDS:
+        text = str_of(interp, v)
+        if isinstance(text, str):
+            return len(text)
         return Unknown(("len", v.uid), "len(term)")
     return MISSING
 
 
 def truth(interp, v: ExtObj, tag: str) -> bool:
+    if v.kind == "rdflib.Literal" and v.attrs["datatype"] is not None:
+        # rdflib.term.Literal.__bool__: the truth of the *value* when the datatype maps to a Python value
+        # ("0"^^xsd:integer and "false"^^xsd:boolean are falsy), else non-emptiness of the lexical form
+        lex, dt = v.attrs["lex"], v.attrs["datatype"].attrs["value"] if isinstance(v.attrs["datatype"], ExtObj) else v.attrs["datatype"]
+        if isinstance(lex, str) and isinstance(dt, str):
+            try:
+                import rdflib as _rdflib  # the installed library decides concrete cases
+
+                return bool(_rdflib.Literal(lex, datatype=_rdflib.URIRef(dt)))
+            except ImportError:
+                pass
+        return interp.decide(("rdflib-literal-truth", v.uid), f"{tag}:bool(typed literal)")
     if v.kind in TERM_KINDS:
         return interp.truth(str_of(interp, v), tag)
     if v.kind in GRAPH_KINDS:
@@ -189,6 +216,83 @@ def isinstance_(interp, v: Any, n: str) -> Any:
     if isinstance(v, Obj):
         return any(isinstance(c, ExtRef) and c.name == n for c in v.cls.mro)
     return False
+
+
+def _ns_bind(interp, o: ExtObj, prefix: Any, ns: Any, override: bool, replace: bool) -> None:
+    """rdflib.namespace.NamespaceManager.bind over rdflib.plugins.stores.memory.Memory.bind (rdflib 7): the store keeps
+    two dicts, prefix -> namespace (insertion ordered: what namespaces() iterates) and namespace -> prefix."""
+    nsv = ns if (isinstance(ns, ExtObj) and ns.kind == "rdflib.URIRef") else uri(_to_strval(interp, ns))
+    if prefix is None:
+        prefix = ""
+    by_prefix = o.attrs["ns"].items  # [(prefix, namespace)]
+    store = o.attrs["store"]
+    by_ns = store.attrs.setdefault("ns_inv", AList([])).items  # [(namespace, prefix)]
+
+    def same(a: Any, b: Any, tag: str) -> bool:
+        return interp.truth(interp.eq(a, b), tag)
+
+    def get(lst: list, key: Any, tag: str) -> Any:
+        for k_, v_ in lst:
+            if same(k_, key, tag):
+                return v_
+        return None
+
+    def put(lst: list, key: Any, val: Any, tag: str) -> None:
+        for i, (k_, _v) in enumerate(lst):
+            if same(k_, key, tag):
+                lst[i] = (k_, val)
+                return
+        lst.append((key, val))
+
+    def drop(lst: list, key: Any, tag: str) -> None:
+        for i, (k_, _v) in enumerate(lst):
+            if same(k_, key, tag):
+                del lst[i]
+                return
+
+    def store_bind(pfx: Any, namespace: Any) -> None:
+        bound_namespace = get(by_prefix, pfx, "bind-prefix")
+        bound_prefix = get(by_ns, namespace, "bind-ns")
+        if bound_prefix is None and bound_namespace is not None:
+            bound_prefix = get(by_ns, bound_namespace, "bind-ns")
+        if override:
+            if bound_prefix is not None:
+                drop(by_prefix, bound_prefix, "bind-prefix")
+            if bound_namespace is not None:
+                drop(by_ns, bound_namespace, "bind-ns")
+            put(by_ns, namespace, pfx, "bind-ns")
+            put(by_prefix, pfx, namespace, "bind-prefix")
+        else:
+            put(by_ns, bound_namespace if bound_namespace is not None else namespace, bound_prefix if bound_prefix is not None else pfx, "bind-ns")
+            put(by_prefix, bound_prefix if bound_prefix is not None else pfx, bound_namespace if bound_namespace is not None else namespace, "bind-prefix")
+
+    bound_namespace = get(by_prefix, prefix, "bind-prefix")
+    if bound_namespace is not None and not same(bound_namespace, nsv, "bind-ns"):
+        if replace:
+            store_bind(prefix, nsv)
+            return
+        # the prefix is in use for another namespace: a numbered prefix is generated
+        base = prefix if interp.truth(prefix, "bind-prefix-nonempty") else "default"
+        if not isinstance(base, str):
+            raise interp.unsupported("generated prefix for a symbolic prefix")
+        num = 1
+        while True:
+            new_prefix = f"{base}{num}"
+            t = get(by_prefix, new_prefix, "bind-prefix")
+            if t is not None and same(t, nsv, "bind-ns"):
+                return
+            if t is None:
+                break
+            num += 1
+        store_bind(new_prefix, nsv)
+        return
+    bound_prefix = get(by_ns, nsv, "bind-ns")
+    if bound_prefix is None:
+        store_bind(prefix, nsv)
+    elif same(bound_prefix, prefix, "bind-prefix"):
+        return
+    elif override or (isinstance(bound_prefix, str) and bound_prefix.startswith("_")):
+        store_bind(prefix, nsv)
 
 
 def getattr_(interp, o: ExtObj, name: str) -> Any:
@@ -260,21 +364,9 @@ def method(interp, em: ExtMethod, args: list, kwargs: dict) -> Any:
         if name == "bind":
             prefix, ns = args[0], args[1]
             override = kwargs.get("override", args[2] if len(args) > 2 else True)
+            replace = kwargs.get("replace", args[3] if len(args) > 3 else False)
             interp.emit("bind", graph=o, prefix=prefix, ns=ns, override=override)
-            nsv = ns if (isinstance(ns, ExtObj) and ns.kind == "rdflib.URIRef") else uri(_to_strval(interp, ns))
-            lst = o.attrs["ns"].items
-            # rdflib NamespaceManager.bind: a namespace already bound to another prefix keeps that prefix unless override
-            for i, (p, n_) in enumerate(lst):
-                if interp.truth(interp.eq(n_, nsv), "bind-ns") and not interp.truth(interp.eq(p, prefix), "bind-prefix"):
-                    if not interp.truth(override, "bind-override"):
-                        return None
-                    del lst[i]
-                    break
-            for i, (p, _n) in enumerate(lst):
-                if interp.truth(interp.eq(p, prefix), "bind-prefix"):
-                    lst[i] = (prefix, nsv)
-                    return None
-            lst.append((prefix, nsv))
+            _ns_bind(interp, o, prefix, ns, interp.truth(override, "bind-override"), interp.truth(replace, "bind-replace"))
             return None
         if name == "add":
             items = interp.unpack_values(args[0])
@@ -305,7 +397,14 @@ def method(interp, em: ExtMethod, args: list, kwargs: dict) -> Any:
                     out.append((s, p, ob, g.attrs["identifier"]))
             return AIter(iter(out), "quads")
         if name == "triples":
-            return AIter(iter(list(o.attrs["data"].items)), "triples")
+            pat = interp.unpack_values(args[0]) if args else [None, None, None]
+            if len(pat) != 3:
+                raise interp.exc("ValueError", "triples() takes a (s, p, o) pattern")
+            hits = []
+            for t in o.attrs["data"].items if k != "rdflib.Dataset" else [t_ for g_ in _contexts(interp, o) for t_ in g_.attrs["data"].items]:
+                if all(w is None or interp.truth(interp.eq(w, x), "triples-pattern") for w, x in zip(pat, t)):
+                    hits.append(t)
+            return AIter(iter(hits), "triples")
         if name == "__len__":
             return len_of(interp, o)
         if name == "__iter__":
